@@ -397,6 +397,8 @@ func c17Check(res *verifrt.Result, h *c17H, s *verifrt.Sched, mk func(s *verifrt
 func c17Programs(thorough bool) []c17Program {
 	a1, a2, a3 := c17Adv{Pfx: "10.0.0.1/32"}, c17Adv{Pfx: "10.0.0.2/32"}, c17Adv{Pfx: "10.0.0.3/32"}
 	a1c := c17Adv{Pfx: "10.0.0.1/32", LP: 200, Comm: []uint32{0xfde80001}}
+	a1lp1, a1lp2 := c17Adv{Pfx: "10.0.0.1/32", LP: 100}, c17Adv{Pfx: "10.0.0.1/32", LP: 200}
+	a1cm1, a1cm2 := c17Adv{Pfx: "10.0.0.1/32", Comm: []uint32{0xfde80001}}, c17Adv{Pfx: "10.0.0.1/32", Comm: []uint32{0xfde80002}}
 	A := []c17Adv{a1, a2}
 	progs := []c17Program{
 		{Name: "set-A;set-superset;drop1", Sets: [][]c17Adv{A, {a1, a2, a3}}, Drops: 1},
@@ -411,6 +413,13 @@ func c17Programs(thorough bool) []c17Program {
 		{Name: "wrong-asn-first;set-A;set-B", Sets: [][]c17Adv{A, {a3}}, WrongASN: 1},
 		{Name: "set-A;set-B;drop2", Sets: [][]c17Adv{A, {a2, a3}}, Drops: 2},
 		{Name: "2byte-peer;set-A;set-B;drop1", Sets: [][]c17Adv{A, {a3}}, Drops: 1, Peer2Byte: true},
+		// the connection stays up: what the peer holds is exactly what the incremental updates made of it
+		{Name: "ibgp;set-A;set-localpref-only-change;no-drop", Sets: [][]c17Adv{{a1lp1, a2}, {a1lp2, a2}}, IBGP: true},
+		{Name: "ebgp;set-A;set-localpref-only-change;no-drop", Sets: [][]c17Adv{{a1lp1, a2}, {a1lp2, a2}}},
+		{Name: "ibgp;set-A;set-communities-only-change;no-drop", Sets: [][]c17Adv{{a1cm1, a2}, {a1cm2, a2}}, IBGP: true},
+		{Name: "set-AB;set-A;set-AC;set-ABC;no-drop", Sets: [][]c17Adv{{a1, a2}, {a1}, {a1, a3}, {a1, a2, a3}}},
+		{Name: "set-A;set-empty;set-A;no-drop;keepalive1", Sets: [][]c17Adv{A, {}, A}, Keepalive: 1},
+		{Name: "ibgp;set-A;set-B;set-attr-change;close;no-drop", Sets: [][]c17Adv{A, {a2, a3}, {a2, a3, a1c}}, Close: true, IBGP: true},
 	}
 	return progs
 }
